@@ -94,7 +94,7 @@ def fill(claim, NA):
 		  "(coherent_reachable, induction over the op list); removeNode_gone; edges_iff_preds (both adjacency lists describe the same graph); "
 		  "toEchelon_mono and local_echelon_inverse (echelon<->local conversion is the identity on non-negative local levels, any number of stages); coherent_unlink; "
 		  "product registries (Props/C18Reg.lean over Model/Registry.lean): explicit_product_stays (a product added to the network itself stays a product of the network until "
-		  "it is removed from the network, for every sequence of node-level and network-level operations), loc_persists, not_product, products_spec. Reachability views (Props/C18Reach.lean): descendants_sound / ancestors_sound (every node the descendants/ancestors view reports is joined to the start node by a non-empty path of successor/predecessor edges, for every graph, cyclic or not, and any fuel: reach_sound by induction on the fuel), self_not_descendant / self_not_ancestor (a node is never reported as its own descendant, even on a cycle), descendants_mem_succs and descendants_are_nodes (on a coherent network every reported descendant is a node of the network); succsOf_iff_predsOf and path_succs_iff_path_preds (on a coherent network a successor path from a to b exists exactly when a predecessor path from b to a does, so the two views explore the same relation); completeness on coherent networks: reach_closed (fuel = number of nodes always suffices: counting argument on the duplicate-free accumulator), descendants_complete / ancestors_complete, hence mem_descendants_iff / mem_ancestors_iff (the views ARE graph reachability minus the start node) and descendant_iff_ancestor (b is a descendant of a exactly when a is an ancestor of b, after any operation history that keeps the network coherent, i.e. every accepted history by coherent_reachable); hasCycle_iff (the model's has_directed_cycle answers yes exactly when some node is joined to itself by a non-empty successor path; compared with network.has_directed_cycle() after every operation on networks of up to 7 nodes); derived views (Props/C18Views.lean): edges_nodup (no edge listed twice), edges_endpoints, mem_sources_iff / mem_sinks_iff (source/sink views = nodes without predecessors/successors), source_no_ancestors, sink_no_descendants; the model views are compared exactly with nx.descendants / nx.ancestors on the real network after every operation. "
+		  "it is removed from the network, for every sequence of node-level and network-level operations), loc_persists, not_product, products_spec. Reachability views (Props/C18Reach.lean): descendants_sound / ancestors_sound (every node the descendants/ancestors view reports is joined to the start node by a non-empty path of successor/predecessor edges, for every graph, cyclic or not, and any fuel: reach_sound by induction on the fuel), self_not_descendant / self_not_ancestor (a node is never reported as its own descendant, even on a cycle), descendants_mem_succs and descendants_are_nodes (on a coherent network every reported descendant is a node of the network); succsOf_iff_predsOf and path_succs_iff_path_preds (on a coherent network a successor path from a to b exists exactly when a predecessor path from b to a does, so the two views explore the same relation); completeness on coherent networks: reach_closed (fuel = number of nodes always suffices: counting argument on the duplicate-free accumulator), descendants_complete / ancestors_complete, hence mem_descendants_iff / mem_ancestors_iff (the views ARE graph reachability minus the start node) and descendant_iff_ancestor (b is a descendant of a exactly when a is an ancestor of b, after any operation history that keeps the network coherent, i.e. every accepted history by coherent_reachable); hasCycle_iff (the model's has_directed_cycle answers yes exactly when some node is joined to itself by a non-empty successor path; compared with network.has_directed_cycle() after every operation on networks of up to 7 nodes); level conversion, other direction (Props/C18Levels.lean): toEchelon_toLocal (echelon -> local -> echelon returns the suffix minima of the echelon levels) and echelon_local_inverse (identity on non-decreasing echelon levels); derived views (Props/C18Views.lean): edges_nodup (no edge listed twice), edges_endpoints, mem_sources_iff / mem_sinks_iff (source/sink views = nodes without predecessors/successors), source_no_ancestors, sink_no_descendants; the model views are compared exactly with nx.descendants / nx.ancestors on the real network after every operation. "
 		  "Tie: random operation sequences on real SupplyChainNetwork objects with the structure dumped through the public accessors after every operation "
 		  "(nodes order, adjacency lists, edges, sources, sinks, descendants, ancestors, accepted/KeyError) compared exactly with the model, plus the coherence "
 		  "predicate on the real objects; level conversions vs model. Builders' topology/attribute placement and derived BOM views: reference predicates in the harness (labelled tests).",
